@@ -71,9 +71,9 @@ Proof. exact (supported_preference pmt errmt accept c). Qed.
 Print Assumptions resp_supported_preference.
 
 (* With a header pre-set by user code the round trip holds under [preset_ok]: the chosen
-   encoder is gob/text (header overwritten), or the pre-set value has no '+' (and, if it has
-   parameters, is a value the parser accepts), or it already carries a suffix the decoder
-   reads as the chosen format. *)
+   encoder is gob/text (header overwritten), or the pre-set value has no parameters (whatever
+   '+' suffix it carries), or it has parameters and is a field-safe value the parser accepts.
+   Outside: a pre-set value with a ';' that is not a media type at all. *)
 Theorem resp_roundtrip_preset_partial pmt errmt :
   parser_stable pmt -> parser_fixes_supported pmt -> parser_keeps_suffix pmt -> parser_accepts_suffixed pmt ->
   forall accept ct preset k hdr,
@@ -82,32 +82,25 @@ Theorem resp_roundtrip_preset_partial pmt errmt :
 Proof. intros Hs Hf Hk Ha accept ct preset k hdr. exact (roundtrip_preset pmt errmt Hs Hf Hk Ha accept ct preset k hdr). Qed.
 Print Assumptions resp_roundtrip_preset_partial.
 
-(* The full statement (any pre-set header) is false. Finding preset-suffix-mismatch: a
-   pre-set header that already contains a '+' suffix other than the chosen encoder's is left
-   alone, so the header announces XML, the body is JSON and the decoder cannot read it. *)
-Theorem resp_preset_suffix_refuted :
-  exists pmt errmt cenc cdec accept ct preset k hdr,
-    parser_stable pmt /\ parser_fixes_supported pmt /\ parser_keeps_suffix pmt /\ parser_accepts_suffixed pmt /\
-    codec_roundtrip cenc cdec /\ contains_plus preset = true /\
-    response_encoder pmt errmt accept ct preset = (Some k, hdr) /\
-    response_decoder pmt hdr <> k /\
-    forall v body, encode cenc k v = Some body -> decode cdec (response_decoder pmt hdr) (shape_of v) body = None.
-Proof.
-  exists cut_parser, (fun _ => []), toy_enc, toy_dec, [], [], w_preset_xml, KJson, w_preset_xml.
-  destruct cut_parser_sane as (A & B & C & D). destruct preset_suffix_witness as (W1 & W2 & W3).
-  split; [exact A|]. split; [exact B|]. split; [exact C|]. split; [exact D|]. split; [exact toy_roundtrip|].
-  split; [reflexivity|]. split; [exact W1|]. split; [rewrite W2; discriminate|exact W3].
-Qed.
-Print Assumptions resp_preset_suffix_refuted.
+(* The former finding preset-suffix-mismatch is repaired (SetContentType keeps an agreeing
+   suffix and replaces another one; the '+' is looked for in the media type only). The
+   statement that used to be refuted now holds: any pre-set header without parameters -
+   with or without a '+' suffix, agreeing or not - round trips. *)
+Theorem resp_preset_suffix_roundtrip pmt errmt :
+  parser_stable pmt -> parser_fixes_supported pmt -> parser_keeps_suffix pmt -> parser_accepts_suffixed pmt ->
+  forall accept ct preset k hdr,
+    contains_semicolon preset = false ->
+    response_encoder pmt errmt accept ct preset = (Some k, hdr) -> response_decoder pmt hdr = k.
+Proof. exact (roundtrip_preset_no_params pmt errmt). Qed.
+Print Assumptions resp_preset_suffix_roundtrip.
 
 (* The former finding preset-params-suffix-lost is repaired (/repo 04b25e0: the suffix is
-   inserted in front of the parameters). The statement that used to be refuted now holds: a
-   pre-set header with parameters, without '+', made of visible ASCII / SP / TAB, that the
-   parser accepts, round trips. *)
+   inserted in front of the parameters): a pre-set header with parameters, made of visible
+   ASCII / SP / TAB, that the parser accepts, round trips - whatever suffix it carries. *)
 Theorem resp_preset_params_roundtrip pmt errmt :
   parser_stable pmt -> parser_fixes_supported pmt -> parser_keeps_suffix pmt -> parser_accepts_suffixed pmt ->
   forall accept ct preset k hdr,
-    field_safe preset = true -> contains_plus preset = false -> contains_semicolon preset = true -> pmt preset <> None ->
+    field_safe preset = true -> pmt preset <> None ->
     response_encoder pmt errmt accept ct preset = (Some k, hdr) -> response_decoder pmt hdr = k.
 Proof. exact (roundtrip_preset_params pmt errmt). Qed.
 Print Assumptions resp_preset_params_roundtrip.
@@ -260,6 +253,16 @@ Example preset_params_now_roundtrip :
   /\ set_content_type (bs "text/plain ; charset=utf-8") app_json = bs "text/plain+json; charset=utf-8".
 Proof. exact preset_params_example. Qed.
 
+(* the repaired suffix case: application/vnd.x+xml + JSON encoder -> application/vnd.x+json; a '+'
+   inside a parameter does not count; an agreeing suffix is left untouched *)
+Example preset_suffix_now_roundtrip :
+  response_encoder cut_parser (fun _ => []) [] [] w_preset_xml = (Some KJson, bs "application/vnd.x+json")
+  /\ response_decoder cut_parser (bs "application/vnd.x+json") = KJson
+  /\ set_content_type (bs "a/b; x=y+z") app_xml = bs "a/b+xml; x=y+z"
+  /\ set_content_type (bs "application/ld+json ; profile=x") app_json = bs "application/ld+json ; profile=x"
+  /\ set_content_type (bs "Application/Vnd.X+JSON") app_json = bs "Application/Vnd.X+json".
+Proof. exact preset_suffix_example. Qed.
+
 (* designed vendor type, pre-set plain header, struct value: XML chosen, header is the vendor
    type, decoder XML, value recovered *)
 Example designed_vendor_xml :
@@ -275,7 +278,7 @@ Example preset_plain_xml :
   response_encoder cut_parser (fun _ => []) app_xml [] (bs "application/vnd.x") = (Some KXml, bs "application/vnd.x+xml")
   /\ preset_ok cut_parser KXml (bs "application/vnd.x")
   /\ response_decoder cut_parser (bs "application/vnd.x+xml") = KXml.
-Proof. split; [vm_compute; reflexivity|]. split; [right; left; split; [reflexivity|left; reflexivity]|vm_compute; reflexivity]. Qed.
+Proof. split; [vm_compute; reflexivity|]. split; [right; left; reflexivity|vm_compute; reflexivity]. Qed.
 
 (* request: a +json vendor type is unsupported -> 415; text/plain is text *)
 Example request_examples :
